@@ -218,3 +218,33 @@ pub assume_specification<I: core::slice::SliceIndex<str>> [ <String as core::ops
     ensures string_index_rel(s, i, o);
 pub assume_specification [ String::len ] (s: &String) -> (r: usize)
     ensures is_ascii_chars(s@) ==> r == s@.len();
+
+// ---------------- functions the crate does not call today, specified so that plausible rewrites of it stay verifiable ----------------
+/// `alloy_rlp::length_of_length(n)`: the length of the header of an item with an n-byte payload (same for strings and lists)
+pub assume_specification [ alloy_rlp::length_of_length ] (payload_length: usize) -> (r: usize)
+    ensures r == hdr(true, payload_length as nat).len(), r == hdr(false, payload_length as nat).len();
+/// `p` repeated `k` times
+pub open spec fn seq_rep<T>(p: Seq<T>, k: nat) -> Seq<T>
+    decreases k
+{ if k == 0 { Seq::<T>::empty() } else { p + seq_rep(p, (k - 1) as nat) } }
+/// `s.trim_start_matches(pat)`; given meaning for `&str` patterns by axiom_trim_start_str (trusted.rs)
+pub uninterp spec fn trim_start_rel<P>(s: &str, p: P, r: &str) -> bool;
+pub assume_specification<'a, P: core::str::pattern::Pattern> [ str::trim_start_matches::<P> ] (s: &'a str, pat: P) -> (r: &'a str)
+    ensures trim_start_rel(s, pat, r);
+/// `s.strip_prefix(pat)`; given meaning for `&str` patterns by axiom_strip_prefix_str (trusted.rs)
+pub uninterp spec fn strip_prefix_rel<P>(s: &str, p: P, r: Option<&str>) -> bool;
+pub assume_specification<'a, P: core::str::pattern::Pattern> [ str::strip_prefix::<P> ] (s: &'a str, pat: P) -> (r: Option<&'a str>)
+    ensures strip_prefix_rel(s, pat, r);
+
+pub assume_specification<T, U, F: FnOnce(T) -> U> [ Option::<T>::map_or ] (o: Option<T>, default: U, f: F) -> (r: U)
+    requires o matches Some(v) ==> f.requires((v,)),
+    ensures match o { Some(v) => f.ensures((v,), r), None => r == default };
+pub assume_specification<'a> [ core::fmt::Formatter::<'a>::write_str ] (f: &mut core::fmt::Formatter<'a>, data: &str) -> (r: core::fmt::Result)
+    ensures r is Ok ==> fmt_out(final(f)) == fmt_out(old(f)) + data@;
+#[verifier::external_type_specification]
+#[verifier::external_body]
+pub struct ExTryFromSliceError(core::array::TryFromSliceError);
+pub assume_specification<'a, T: Copy, const N: usize> [ <[T; N] as TryFrom<&'a [T]>>::try_from ] (s: &[T]) -> (r: Result<[T; N], core::array::TryFromSliceError>)
+    ensures
+        r is Ok <==> s@.len() == N,
+        r matches Ok(a) ==> a@ == s@;
